@@ -21,7 +21,6 @@ class SvgFragmentImage(qrcode.image.base.BaseImageWithDrawer):
     default_drawer_class: Type[QRModuleDrawer] = svg_drawers.SvgSquareDrawer
 
     def __init__(self, *args, **kwargs):
-        ET.register_namespace("svg", self._SVG_namespace)
         super().__init__(*args, **kwargs)
         # Save the unit size, for example the default box_size of 10 is '1mm'.
         self.unit_size = self.units(self.box_size)
@@ -72,6 +71,11 @@ class SvgFragmentImage(qrcode.image.base.BaseImageWithDrawer):
 
     def _write(self, stream):
         ET.ElementTree(self._img).write(stream, xml_declaration=False)
+
+
+# Register the namespace prefix once: the registry is process-wide, and
+# re-registering it for every image races with other threads serialising.
+ET.register_namespace("svg", SvgFragmentImage._SVG_namespace)
 
 
 class SvgImage(SvgFragmentImage):
